@@ -44,11 +44,23 @@ def main():
         tier = sys.argv[sys.argv.index("--tier") + 1]
     dst = os.path.join("/verif/seeded", sid)
     os.makedirs(dst, exist_ok=True)
-    code, diff = sh(["git", "-C", wt, "diff", "--", "cspuz"])
-    if not diff.strip():
-        sys.exit("empty diff")
-    open(os.path.join(dst, "patch.diff"), "w").write(diff)
-    demo_src = os.path.join(wt, "DEMO")
+    demo_name = "DEMO"
+    if "--demo" in sys.argv:
+        demo_name = sys.argv[sys.argv.index("--demo") + 1]
+    if "--diff" in sys.argv:
+        # the change is given as a patch file in the worktree (tree is clean): apply it for the duration
+        diff = open(os.path.join(wt, sys.argv[sys.argv.index("--diff") + 1])).read()
+        sh(["git", "-C", wt, "checkout", "--", "."])
+        open(os.path.join(dst, "patch.diff"), "w").write(diff)
+        rc, ro = sh(["git", "-C", wt, "apply", os.path.join(dst, "patch.diff")])
+        if rc != 0:
+            sys.exit("patch file does not apply in the worktree: " + ro)
+    else:
+        code, diff = sh(["git", "-C", wt, "diff", "--", "cspuz"])
+        if not diff.strip():
+            sys.exit("empty diff")
+        open(os.path.join(dst, "patch.diff"), "w").write(diff)
+    demo_src = os.path.join(wt, demo_name)
     if os.path.isdir(demo_src):
         for f in os.listdir(demo_src):
             if os.path.isfile(os.path.join(demo_src, f)):
@@ -65,18 +77,18 @@ def main():
             sys.exit("patch does not apply: " + out)
         for r in (clean, patched):
             if os.path.isdir(demo_src):
-                shutil.copytree(demo_src, os.path.join(r, "DEMO"))
+                shutil.copytree(demo_src, os.path.join(r, demo_name))
         meta["ran"]["tests_clean"] = tests(clean)
         meta["ran"]["tests_patched"] = tests(patched)
         # the demonstration is run in the sub-agent's own worktree (some demos assert that path):
         # with the change as left there, then with the change reversed, then restored
         pf = os.path.join(dst, "patch.diff")
-        c2, o2 = sh([PY, "DEMO/demo.py"], cwd=wt, timeout=900)
+        c2, o2 = sh([PY, demo_name + "/demo.py"], cwd=wt, timeout=900)
         rc, ro = sh(["git", "-C", wt, "apply", "-R", pf])
         if rc != 0:
             sys.exit("cannot reverse the patch in the worktree: " + ro)
         try:
-            c1, o1 = sh([PY, "DEMO/demo.py"], cwd=wt, timeout=900)
+            c1, o1 = sh([PY, demo_name + "/demo.py"], cwd=wt, timeout=900)
         finally:
             sh(["git", "-C", wt, "apply", pf])
         meta["ran"]["demo_clean_exit"] = c1
